@@ -172,8 +172,40 @@ def roundtrip_failure(d, loads, dumps):
     return None
 
 
+def allof_symptom(d, typ=None):
+    """the known defect class wherever it sits in the (shrunk) dictionary: a keyword whose schema is wrapped in
+    allOf carrying a string - written unquoted, and for a hex colour the '#...' then reads as a comment, so that the
+    visible damage lands on whatever follows"""
+    found = None
+    if isinstance(d, list):
+        for x in d:
+            found = found or allof_symptom(x, typ)
+        return found
+    if not isinstance(d, dict):
+        return None
+    typ = d.get("__type__", typ)
+    for k, v in d.items():
+        if k.startswith("__") and k.endswith("__"):
+            continue
+        if isinstance(v, (dict, list)) and not (isinstance(v, list) and (not v or not isinstance(v[0], (dict, list)))):
+            r = allof_symptom(v, typ)
+            if r and (found is None or r.endswith("hexcolor-unquoted")):
+                found = r
+            continue
+        sch = keyword_schema(typ, k)
+        if isinstance(sch, dict) and "allOf" in sch and isinstance(v, str):
+            if re.match(r"^#[0-9a-fA-F]{3,8}$", v):
+                return "allOf-wrapped-slot:hexcolor-unquoted"
+            if not v.startswith("["):
+                found = found or "allOf-wrapped-slot:string-unquoted"
+    return found
+
+
 def slot_symptom(d):
     """after shrinking: the single remaining keyword names the call site"""
+    a = allof_symptom(d)
+    if a and a.endswith("hexcolor-unquoted"):
+        return a
     node, typ, key, val = (d[0] if isinstance(d, list) and d else d), None, None, None
     while True:
         if isinstance(node, dict):
